@@ -188,22 +188,30 @@ def build(forest, builder):
 
 
 class Q:
-    """select() results of one document as id-sets, memoised."""
+    """select() results of one document as id-sets, memoised.  With a namespace map the selector is spelled '*|*:x' so that the map's
+    default namespace cannot restrict the implied universal: the state pseudo-classes themselves must not depend on the caller's map."""
 
-    def __init__(self, sv, soup):
+    def __init__(self, sv, soup, namespaces=None):
         self.sv = sv
         self.soup = soup
+        self.ns = namespaces
         self.memo = {}
 
     def __call__(self, text):
         if text not in self.memo:
-            self.memo[text] = {id(e) for e in self.sv.select(text, self.soup)}
+            if self.ns is None:
+                self.memo[text] = {id(e) for e in self.sv.select(text, self.soup)}
+            else:
+                self.memo[text] = {id(e) for e in self.sv.select('*|*' + text, self.soup, namespaces=self.ns)}
         return self.memo[text]
 
 
-def check_doc(sv, family, soup):
+FOREIGN_MAP = {'': 'urn:not-html', 'x': 'urn:x', 'html': 'urn:also-not-html'}
+
+
+def check_doc(sv, family, soup, namespaces=None):
     """Yield (law, detail) for every violated law / definition in this document."""
-    q = Q(sv, soup)
+    q = Q(sv, soup, namespaces)
     els = T.elements(soup)
     by = {id(e): e for e in els}
 
@@ -321,6 +329,8 @@ def run_shard(desc):
                 try:
                     with shard.deadline(60):
                         bad = check_doc(sv, family, soup)
+                        if not bad and builder in ('api', 'html5lib') and k % 3 == 0:
+                            bad = [(law + '@foreign-default-namespace', d) for law, d in check_doc(sv, family, soup, FOREIGN_MAP)]
                 except shard.CaseTimeout:
                     bad = [('timeout', 'document did not finish in 60 s')]
                 except Exception as e:
@@ -347,6 +357,8 @@ def replay(case):
     soup = build(_sel.tup(case['forest']), case['builder'])
     try:
         bad = check_doc(sv, case['family'], soup)
+        if case['law'].endswith('@foreign-default-namespace'):
+            bad = [(law + '@foreign-default-namespace', d) for law, d in check_doc(sv, case['family'], soup, FOREIGN_MAP)]
     except Exception as e:
         return {'law': 'raise:' + type(e).__name__}, repr(e)
     for law, detail in bad:
